@@ -9,7 +9,7 @@ using namespace Fastor;
 
 // FORM 0: matmul(A,B)   1: Tensor C = A % B   2: rank-1 operand forms (matmul and %)
 // FORM 3: pointer kernel _matmul writing straight into the guard-flush buffer
-// FORM 4: lazy product of expressions ((A+0) % (1*B)) assigned to an existing tensor
+// FORM 4: lazy product of expressions ((A+0) % (B-0)) assigned to an existing tensor
 // FORM 5: rank-1 operand forms through operator% only
 template <class T, size_t M, size_t K, size_t N, int FORM>
 void thunk(const T *a, const T *b, T *out) {
@@ -18,7 +18,7 @@ void thunk(const T *a, const T *b, T *out) {
   std::copy(a, a + M * K, A.data()); std::copy(b, b + K * N, B.data());
   if constexpr (FORM == 0) { Tensor<T, M, N> C = matmul(A, B); std::copy(C.data(), C.data() + M * N, out); }
   else if constexpr (FORM == 1) { Tensor<T, M, N> C = A % B; std::copy(C.data(), C.data() + M * N, out); }
-  else if constexpr (FORM == 4) { Tensor<T, M, N> C; C.fill(T(77)); C = (A + T(0)) % (T(1) * B); std::copy(C.data(), C.data() + M * N, out); }
+  else if constexpr (FORM == 4) { Tensor<T, M, N> C; C.fill(T(77)); C = (A + T(0)) % (B - T(0)); std::copy(C.data(), C.data() + M * N, out); }
   else if constexpr (FORM == 2 || FORM == 5) {
     if constexpr (N == 1) {
       Tensor<T, K> v; std::copy(b, b + K, v.data());
@@ -36,7 +36,7 @@ void thunk(const T *a, const T *b, T *out) {
 template <class T>
 void driver(vf::Draw &d, vf::Ctx &ctx, size_t M, size_t K, size_t N, int form, void (*kern)(const T *, const T *, T *)) {
   static const char *names[] = {"matmul(A,B)", "C = A % B", "matmul with rank-1 operand", "_matmul pointer kernel",
-                                "C = (A+0) % (1*B)", "operator% with rank-1 operand"};
+                                "C = (A+0) % (B-0)", "operator% with rank-1 operand"};
   std::vector<T> A(M * K), B(K * N);
   int mode = (int)d.integer(0, 2);            // 0,1: integer-valued (exact)   2: dyadic reals (rounding bound)
   bool exact = mode < 2 || std::is_integral<T>::value;
